@@ -18,8 +18,9 @@ import (
 type input struct {
 	Name  string `json:"name"`
 	Kind  string `json:"kind"`
-	Bytes []int  `json:"bytes"`
-	Int   int64  `json:"int"`
+	Bytes []int   `json:"bytes"`
+	Int   int64   `json:"int"`
+	Ints  []int64 `json:"ints"`
 }
 
 type replayFile struct {
